@@ -99,6 +99,11 @@ func (f *MakeArray) Call(s *slip.Scope, args slip.List, depth int) slip.Object {
 	default:
 		slip.TypePanic(s, depth, "dimensions", ta, "fixnum", "list of non-negative fixnums")
 	}
+	for _, d := range dims {
+		if d < 0 || slip.ArrayMaxDimension < d {
+			slip.TypePanic(s, depth, "dimension", slip.Fixnum(d), "non-negative fixnum no larger than array-dimension-limit")
+		}
+	}
 	rest := args[1:]
 	if option, has := slip.GetArgsKeyValue(rest, slip.Symbol(":element-type")); has {
 		if sym, ok := option.(slip.Symbol); ok {
